@@ -405,7 +405,9 @@ def r3_deposits(ctx):
     r.check([a[1] for a in legacy["h"]] == ["Lt(^state.height.0, 978392)"], "legacy/height", "legacy deposit rule: height < 978392", "legacy height atoms %s" % [a[1] for a in legacy["h"]])
     for label, tbl in (("other-networks", {a[0]: 0 for a in legacy["m"] + legacy["t"]}), ("height>=978392", {a[0]: 0 for a in legacy["h"]})):
         f = force(c, tbl)
-        live = [sigv(e) for bi, e in rem if bi in f.reach]
+        # recovered along the paths this case leaves: `let id = if legacy {..} else {..}; remove_coin(id)` reads as the one alternative that is live
+        with c.restricted(f.reach):
+            live = [sigv(e2) for bi2, e2 in q.call_exprs(c, "CoinMapping::remove_coin") if bi2 in f.reach]
         r.check(live == ["CoinMapping::remove_coin(^state.coins, Transaction::output_coinid($2, 1), UnsealedState::tip_906(^state))"], "remove/" + label,
                 "on %s output 1 of the original transaction is removed" % label, "on %s the coins removed are %s" % (label, live))
     r.check(len(rem) >= 1, "remove/present", "output 1 is removed", "the second deposited coin is never removed (value duplicated)")
@@ -417,7 +419,8 @@ def r3_deposits(ctx):
         tblw.update({a[0]: 1 for a in legacy["t"]})
         tblw.update({a[0]: 0 for a in legacy["m"]})
         f = force(c, tblw)
-        livew = [sigv(e) for bi, e in rem if bi in f.reach]
+        with c.restricted(f.reach):
+            livew = [sigv(e2) for bi2, e2 in q.call_exprs(c, "CoinMapping::remove_coin") if bi2 in f.reach]
         good = "CoinMapping::remove_coin(^state.coins, Transaction::output_coinid($2, 1), UnsealedState::tip_906(^state))"
         if livew and good not in livew:
             r.violation("legacy/right-coin-kept", "on Testnet (and Mainnet) below height 978392 a deposit removes %s — the id computed after output 0 was rewritten, which names no coin: "
